@@ -282,6 +282,8 @@ pub struct Ctx {
     violations:     u64,
     known_seen:     BTreeSet<String>,
     harness_errors: Vec<String>,
+    /// violations whose replay file did not reproduce in a fresh process (not reported as violations)
+    unconfirmed: Vec<String>,
     run_timeout:    Duration,
     batch_wall_cap: Duration,
     replay_done:    bool,
@@ -363,6 +365,7 @@ impl Ctx {
             violations: 0,
             known_seen: BTreeSet::new(),
             harness_errors: Vec::new(),
+            unconfirmed: Vec::new(),
             run_timeout,
             batch_wall_cap,
             replay_done: false,
@@ -810,11 +813,16 @@ impl Ctx {
                 match st {
                     Ok(st) if st.code() == Some(1) => {}
                     other => {
-                        self.harness_error(format!(
-                            "replay of {} in a fresh process did not reproduce (status {:?})",
+                        // Not reported as a violation. If nothing else is found either, this is a
+                        // harness error (a check must not raise alarms it cannot reproduce); next to
+                        // confirmed violations it is only noted.
+                        self.unconfirmed.push(format!(
+                            "replay of {} ({}) in a fresh process did not reproduce (status {:?})",
                             path.display(),
+                            v.signature,
                             other.map(|s| s.code())
                         ));
+                        return;
                     }
                 }
             }
@@ -996,6 +1004,13 @@ impl Ctx {
             self.known_seen.len(),
             wall
         );
+        if self.violations == 0 {
+            let u = std::mem::take(&mut self.unconfirmed);
+            self.harness_errors.extend(u);
+        }
+        for e in &self.unconfirmed {
+            eprintln!("UNCONFIRMED: {}", e);
+        }
         for e in &self.harness_errors {
             eprintln!("HARNESS-ERROR: {}", e);
         }
